@@ -77,6 +77,19 @@ func VerifC10_OneInstrBool() {
 	zzverif.Reach("one-instr-bool")
 }
 
+// Loops closed by any of the three jump instructions run into the step limit:
+// PUSH <bool>; <jump opcode>; <symbolic target byte>
+func VerifC10_BackJump() {
+	buf := append([]byte{}, zzHeader...)
+	buf = append(buf, 1, 0, 0, 0)
+	buf = append(buf, 0x03, zzverif.Byte("flag")&1)
+	buf = append(buf, 2, 0, 0, 0)
+	op := []Opcode{OpJump, OpJumpIfTrue, OpJumpIfFalse}[zzverif.Choice("jump", 3)]
+	buf = append(buf, byte(OpPush), 0, 0, 0, 0, byte(op), zzverif.Byte("target"), 0, 0, 0)
+	zzRun(buf, 30)
+	zzverif.Reach("back-jump")
+}
+
 func VerifC10_Twin() {
 	buf := append([]byte{}, zzHeader...)
 	buf = append(buf, zzverif.Bytes("body", 4)...)
